@@ -570,6 +570,10 @@ fn judge_ols(x: &[Vec<f64>], y: &[Vec<f64>], s: &Spec, out: &FitOut, tl: &Tol, v
     if rnorm > 1e-6 * ynorm {
         st.inc("ols_nontrivial_nonzero_residual");
     }
+    // rounding error of length-n inner products grows like sqrt(n): the constant is the stated one up to
+    // n = 40 (every member of the original catalogue) and grows with sqrt(n / 40) for the large members
+    let c_orth = tl.c_orth * (n as f64 / 40.0).sqrt().max(1.0);
+    let tl = &Tol { c_obj: tl.c_obj, c_gap: tl.c_gap, c_orth, c_pred: tl.c_pred, c_mean: tl.c_mean };
     let key = if s.float == "f32" { "ols_max_orthogonality_ratio_f32" } else { "ols_max_orthogonality_ratio_f64" };
     for j in 0..p {
         let g: f64 = (0..n).map(|i| x[i][j] * rr[i]).sum();
@@ -891,7 +895,14 @@ fn specs_for(ctx: &Ctx, task: &Task, reduced_targets: bool) -> Vec<Spec> {
                     for &l1_ratio in &L1_RATIOS {
                         for intercept in [true, false] {
                             for &tol in &TOLS {
-                                let max_iter = if penalty * l1_ratio > 0.0 { ctx.pick(MAX_ITER_QUICK, MAX_ITER) } else { ctx.pick(MAX_ITER_NO_L1_QUICK, MAX_ITER_NO_L1) };
+                                // large replicated members (a sweep costs 100x more) keep the quick budgets in both tiers
+                                let max_iter = if reduced_targets {
+                                    if penalty * l1_ratio > 0.0 { MAX_ITER_QUICK } else { MAX_ITER_NO_L1_QUICK }
+                                } else if penalty * l1_ratio > 0.0 {
+                                    ctx.pick(MAX_ITER_QUICK, MAX_ITER)
+                                } else {
+                                    ctx.pick(MAX_ITER_NO_L1_QUICK, MAX_ITER_NO_L1)
+                                };
                                 v.push(Spec { float: task.float, est: if est == "enet" { "enet" } else { "mtl" }, targets: targets.clone(), penalty, l1_ratio, intercept, tol, max_iter, x_layout: "std", y_layout: "std", pred_layout: "std" });
                             }
                         }
@@ -913,7 +924,7 @@ fn main() {
          variants: an appended constant column (0, 1 or 5000) and an appended duplicate of column 0, run only with penalty > 0 and l1_ratio < 1; targets = fixed linear function of the centred lattice coordinates + constant + fixed noise table, 3 columns. \
          plus 'even_targets' members (integer targets that are an even function of column 0, so column 0 is exactly orthogonal to them). \
          Tall designs (n in {16, 24, 40} >= 8 x columns, p in {1, 2}; quick {16, 40}) carry the same images and, for OLS only, strongly offset images (offset 1e7 in f64, 2000 in f32 and f64, unit spacing; p = 2: both columns / one column). \
-         Large replicated members: the 4-level, 2x3 and Latin-square designs repeated cyclically to n in {1025, 4097} (quick: 2x3 at 1025), images (0,1), (5,1), (0,1e3), all estimators with reduced target sets. \
+         Large replicated members: the 4-level, 2x3 and Latin-square designs repeated cyclically to n in {1025, 4097} (quick: 2x3 at 1025), images (0,1), (5,1), (0,1e3), all estimators with reduced target sets and the quick iteration budgets (1e4 / 300) in both tiers. \
          Layout family: on the well-conditioned images (offset {0,5}, scale {1,1e3}) of four designs (n = 6, 9, 16, 1025) every estimator is also run with records / targets / predict input as column-major owned array (f), transposed view of a feature-major array (t), reversed-row view of a reversed copy (rev), every second row of a larger array with NaN filler rows (stride2): 8 (1-D targets) or 10 layout combinations x {OLS intercept on/off; penalty {.01,1} x l1_ratio {.5,1} x intercept x tol 1e-8 (f32: 1e-4)}. \
          Estimators: OLS (each target column, intercept on / off), ElasticNet (single target columns), MultiTaskElasticNet (first 1..3 target columns; quick: all 3); grid penalty {0,.01,.1,1,10} x l1_ratio {0,.5,1} x intercept {on,off} x tol {1e-4,1e-8}; \
          max_iterations 1e5 (quick 1e4) when penalty*l1_ratio > 0, 2000 (quick 300) when penalty*l1_ratio = 0 (the implementation's gap then equals the primal objective and never closes on noisy targets); f32 and f64. \
@@ -926,7 +937,7 @@ fn main() {
     ctx.assume("reported gap >= -1e-12 (f64) / -1e-4 (f32) x M");
     ctx.assume("global cross-check: P(returned) - P* <= gap/n + eps with P* from the harness's own f64 block coordinate descent on the centred problem (<= 20000 sweeps, accepted only when its own KKT-implied decrease is < 1e-14 x ||y||^2/2n, otherwise counted in global_check_skipped_reference_unconverged)");
     ctx.assume("l1 threshold: a non-zero coefficient row j with ||x_j'(R + x_j w_j)|| < n*penalty*l1_ratio - margin is a violation; margin = (10*tol + 100*c_obj) x (threshold + sum_k |x_j.x_k| ||w_k|| + ||x_j'Y||); inside the margin = indeterminate (counted)");
-    ctx.assume("OLS: |x_j.r| <= c x ||x_j|| x S, |1.r| <= c x sqrt(n) x S and, with intercept, |(x_j - mean_j).r| <= c x ||x_j - mean_j|| x S, with S = ||y|| + sum_k ||x_k|| |beta_k| + sqrt(n)|b| (backward-error scale of a least-squares solve), c = 1e-12 (f64) / 1e-5 (f32) (a Householder QR stays below 1e-3 of these on the whole catalogue, see ols_max_*_ratio); SSE ladder slack (c S)^2");
+    ctx.assume("OLS: |x_j.r| <= c x ||x_j|| x S, |1.r| <= c x sqrt(n) x S and, with intercept, |(x_j - mean_j).r| <= c x ||x_j - mean_j|| x S, with S = ||y|| + sum_k ||x_k|| |beta_k| + sqrt(n)|b| (backward-error scale of a least-squares solve), c = 1e-12 (f64) / 1e-5 (f32) x max(1, sqrt(n / 40)) (n <= 40: the plain constant; the factor only concerns the n >= 1025 members) (a Householder QR stays below 1e-3 of these on the whole catalogue, see ols_max_*_ratio); SSE ladder slack (c S)^2");
     ctx.assume("OLS: SSE <= reference minimum + (c (S + kappa ||r||))^2 + 8 eps_f64 x evaluation magnitude; reference = modified Gram-Schmidt on the augmented matrix of centred (with intercept), unit-norm columns in f64; both SSEs are evaluated on the centred data; kappa = the reference's condition estimate of [X | 1]");
     ctx.assume("predict == X w + b within 1e-12 (f64) / 1e-5 (f32) x (sum |x_ij w_j| + |b|)");
     ctx.assume("layout family: every layout run is judged by all oracles and must give the same verdicts as the standard-layout run of the same case; fitted values X w + b of the two models (f64) must agree within 1e-9 (f64) / 1e-4 (f32) x (||fitted|| + ||y||) + sqrt(2 gap_1) + sqrt(2 gap_2) (two points whose suboptimality is bounded by their gaps); runs on the iteration cap are not compared (counted); arithmetic order of ndarray's dot differs between contiguous and strided columns, so bit-identity is only counted (layout_models_bit_identical), not demanded");
